@@ -74,6 +74,7 @@ fn layout(x: u8) -> VecOrStringLayout {
         _ => VecOrStringLayout::Unknown,
     }
 }
+const PRIM_TAGS: [u8; 15] = [1, 2, 3, 4, 5, 6, 7, 8, 10, 11, 12, 13, 14, 15, 16];
 fn prim(tag: u8) -> SchemaPrimitive {
     match tag {
         1 => SchemaPrimitive::schema_i8,
@@ -541,8 +542,12 @@ pub fn mutations(s: &ST) -> Vec<(String, ST)> {
     // mutations at the root
     match s {
         ST::Prim(t) => {
-            let nt = if *t == 2 { 6 } else { 2 };
-            out.push((format!("primitive kind {} -> {}", t, nt), ST::Prim(nt)));
+            // every other primitive kind (all ordered pairs of kinds are reached through the enumerated trees)
+            for nt in PRIM_TAGS {
+                if nt != *t {
+                    out.push((format!("primitive kind {:?} -> {:?}", prim(*t), prim(nt)), ST::Prim(nt)));
+                }
+            }
             out.push(("primitive -> string".into(), ST::Str(0)));
         }
         ST::Str(_) => out.push(("string -> u8".into(), ST::Prim(2))),
@@ -673,15 +678,22 @@ fn check_tree(ctx: &mut Ctx, st: &ST, origin: &str, do_mutations: bool) {
     let full = to_schema(st, true);
     let subject = origin.to_string();
     let mk = |what: String| J::obj(vec![("schema_tree", J::s(brief(st))), ("nodes", J::i(nodes(st))), ("observed", J::s(what))]);
-    // format 2: exact round trip; format 1: method attributes that only format 2 stores are lost by design
+    // formats 2 and 1: exact round trip. Format 1 has no place for a method's receiver kind and async flag:
+    // a tree that differs from the original in exactly those attributes gets its own (recorded) signature.
     for format in [2u32, 1] {
         ctx.eval();
-        let expect = if format == 2 { full.clone() } else { to_schema_v(st, true, false) };
+        let expect = full.clone();
         match write_schema(&full, format) {
             Err(m) => ctx.violation("C13:schema-write-fails", &subject, mk(format!("format {}: {}", format, m))),
             Ok(bytes) => match read_schema(&bytes, format as u16) {
                 Ok((back, used)) => {
-                    if back != expect || used != bytes.len() {
+                    if format == 1 && back != expect && used == bytes.len() && back == to_schema_v(st, true, false) {
+                        ctx.violation(
+                            "C13:format1-drops-receiver-and-async-flag",
+                            "format-1",
+                            mk("written and read back at library format 1, every method of a trait definition comes back with receiver &self and without the async flag; everything else is preserved".to_string()),
+                        );
+                    } else if back != expect || used != bytes.len() {
                         let mut b = format!("{:?}", back);
                         b.truncate(500);
                         ctx.violation("C13:schema-roundtrip-differs", &subject, mk(format!("format {}: read back {} (consumed {}/{})", format, b, used, bytes.len())));
@@ -762,6 +774,38 @@ pub fn run(ctx: &mut Ctx, reg: &Registry) {
             check_tree(ctx, t, "enumerated", true);
             ctx.count("enumerated_trees_checked");
         }
+    }
+    // (a2) every ordered pair of distinct primitive kinds, bare and nested (vector element, option, struct field)
+    if ctx.mine(0) {
+        for a in PRIM_TAGS {
+            for b in PRIM_TAGS {
+                if a == b {
+                    continue;
+                }
+                let wraps: Vec<(&str, Box<dyn Fn(ST) -> ST>)> = vec![
+                    ("bare", Box::new(|x| x)),
+                    ("vector element", Box::new(|x| ST::Vector(Box::new(x), 0))),
+                    ("option", Box::new(|x| ST::Opt(Box::new(x)))),
+                    ("struct field", Box::new(|x| ST::Struct { name: "s".into(), size: None, align: None, fields: vec![SF { name: "f".into(), value: x, offset: None }] })),
+                ];
+                for (wname, w) in wraps.iter() {
+                    ctx.eval();
+                    ctx.count("mutations");
+                    let (sa, sb) = (to_schema(&w(ST::Prim(a)), true), to_schema(&w(ST::Prim(b)), true));
+                    match catch(|| diff_schema(&sa, &sb, "".into(), false)) {
+                        Ok(Some(_)) => ctx.count("mutation_detected"),
+                        Ok(None) => ctx.violation(
+                            "C13:wire-relevant-change-not-reported",
+                            "primitive-pairs",
+                            J::obj(vec![("mutation", J::s(format!("primitive kind {:?} -> {:?} ({})", prim(a), prim(b), wname))), ("observed", J::s("diff_schema reports no difference"))]),
+                        ),
+                        Err(p) => ctx.violation("C13:diff-panics", "primitive-pairs", J::obj(vec![("mutation", J::s(format!("{:?} -> {:?} ({})", prim(a), prim(b), wname))), ("observed", J::s(p))])),
+                    }
+                    ctx.distinct(&format!("primpair|{}|{}|{}", a, b, wname));
+                }
+            }
+        }
+        ctx.count("primitive_pairs_exhaustive");
     }
     // (b) random trees up to ~60 nodes, including trait / closure / future nodes
     let mut rng = Rng::derive(ctx.seed, &format!("c13/{}", ctx.shard));
